@@ -173,6 +173,8 @@ def run(prop, tier, seed, replay=None):
     v.coverage.update({"evaluations": int(stats_total.get("ops", 0)), "distinct_nontrivial": int(stats_total.get("parsed", 0)),
                        "rule": "strings derived from calc_grammar to depth %d (sums, products, powers with ^ and **, unary signs, every NUMBER form, "
                                "dotted names, element->attribute in item and attribute mode, one- and two-argument calls) plus the fixed list; "
+                               "seq_* = cases of 2-5 strings through ONE fresh evaluator over variables spelled like element->attribute paths "
+                               "(`el.l` with `el->l`, `el.l->x` with `el->l.x`), three-way agreement when built, after each update, rebuilt, and of bound variables; "
                                "non-trivial = lark parses the string" % depth,
                        "samples": samples, "traces_validated_against_impl": nlines, "correspondence_divergences": len(diffs) + len(adiffs),
                        "statement_lists": dict(acounts, rule="assign_in_scope = lines on which the driver's WellOrdered test (hypothesis of "
